@@ -537,3 +537,121 @@ def bit3(ctx):
     r.note("%d abstract evaluations over %d node kinds x 17 place shapes x single-bit masks x polarities" % (n, len(live)))
     r.analysed["evaluations"] = n
     return r
+
+
+# ---------------------------------------------------------------- BIT-4 identities behind `[αF] > [αF]`
+
+
+class SegModel:
+    def __init__(self, ctx):
+        lib = self.lib = ctx.lib
+        self.pm = pm = PlaceModel(ctx)
+        sadt = ctx.adt(lib, SEG)
+        fields = [(f["name"], f["ty"]) for f in sadt["variants"][0]["fields"]]
+        self.byte_fields = [nm for nm, ty in fields if ty == "u8"]
+        self.place_fields = [nm for nm, ty in fields if ty == PLACE]
+        if len(self.byte_fields) != 3 or len(self.place_fields) != 1:
+            raise AnchorMissing("Segment fields changed: %r" % fields)
+        self.get_node = ctx.fn(lib, SEG + "::get_node")
+        self.set_node = ctx.fn(lib, SEG + "::set_node")
+        self.set_feat = ctx.fn(lib, SEG + "::set_feat")
+        self.kinds = _node_variants(ctx)
+        self.selfref = ("ref", ("H", "self", ()))
+        full = self.seg(opt(1, pm.word_of({x: 1 for x in pm.subs})))
+        self.kind_of = {}
+        for k in self.kinds:
+            g = pm.run(self.get_node, [self.selfref, self.K(k)], {"self": full})
+            if g == "diverge":
+                self.kind_of[k] = ("panic",)
+                continue
+            names = {b[1] for b in g[2][2] if isinstance(b, tuple)} if g[0] == "opt" and g[1] == 1 and g[2][0] == "bv" else set()
+            if len(names) != 1:
+                raise AnchorMissing("Segment::get_node(%s) is not a plain field/sub-node read" % k)
+            nm = names.pop()
+            self.kind_of[k] = ("byte", nm) if nm in self.byte_fields else ("sub", nm)
+        self.live = [k for k in self.kinds if self.kind_of[k][0] != "panic"]
+        self.starts = [("None", opt(0, None), {x: 0 for x in pm.subs})]
+        for sh in pm.shapes():
+            if any(sh.values()):
+                self.starts.append((_shape_name(sh), opt(1, pm.word_of(sh)), sh))
+
+    def seg(self, placeword):
+        d = {nm: bv(8, _atoms(nm, 8)) for nm in self.byte_fields}
+        d[self.place_fields[0]] = self.pm.word(placeword)
+        return ("struct", d)
+
+    def K(self, k):
+        return ("enum", NODEKIND, k)
+
+    def width(self, k):
+        t = self.kind_of[k]
+        return 8 if t[0] == "byte" else len(self.pm.layout[t[1]][1])
+
+
+def _subst(v, m):
+    if isinstance(v, tuple):
+        if len(v) == 3 and v[0] in ("a", "n") and isinstance(v[1], str):
+            if ("a",) + v[1:] in m:
+                c = m[("a",) + v[1:]]
+                return c if v[0] == "a" else 1 - c
+            return v
+        return tuple(_subst(x, m) for x in v)
+    if isinstance(v, dict):
+        return {k: _subst(x, m) for k, x in v.items()}
+    return v
+
+
+def _same_seg(a, b):
+    """structural equality of two abstract segments (payload of an absent place is irrelevant)"""
+    if a[0] != "struct" or b[0] != "struct" or set(a[1]) != set(b[1]):
+        return False
+    for f in a[1]:
+        x, y = a[1][f], b[1][f]
+        if x[0] == "struct" and y[0] == "struct":
+            (fx, ox), = x[1].items()
+            (fy, oy), = y[1].items()
+            if fx != fy or not _same_opt(ox, oy):
+                return False
+        elif x != y:
+            return False
+    return True
+
+
+def bit4(ctx):
+    r = RuleResult("BIT-4", "writing back what was read is the identity: set_node(N, get_node(N)) and set_feat(N, bit, <value of that bit>) leave every segment as it was", floor=1168)
+    sm = SegModel(ctx)
+    pm = sm.pm
+    n = 0
+    for sname, w0, sh in sm.starts:
+        s0 = sm.seg(w0)
+        for k in sm.live:
+            t = sm.kind_of[k]
+            present = t[0] == "byte" or sh[t[1]] == 1
+            # node copy
+            v = pm.run(sm.get_node, [sm.selfref, sm.K(k)], {"self": s0})
+            heap = {"self": s0}
+            ret = pm.run(sm.set_node, [sm.selfref, sm.K(k), v], heap)
+            n += 1
+            ok = ret != "diverge" and _same_seg(heap["self"], s0)
+            r.inst("set_node(%s, get_node(%s)) on place {%s} is the identity" % (k, k, sname), fn_loc(sm.set_node), "ok" if ok else "report")
+            if not ok:
+                r.report("BIT-4|node|%s|%s" % (k, sname), fn_loc(sm.set_node), sm.set_node.path,
+                         "set_node(%s, get_node(%s)) changes a segment whose place is {%s}: `[α%s] > [α%s]` (node alpha copied back) does not leave the word as it was" % (k, k, sname, k, k))
+            # feature copy: the alpha captures `bit != 0` (false on an absent node) and applies set_feat(N, bit, captured)
+            for bit in range(sm.width(k)):
+                f = bv_const(8, 1 << bit)
+                for c in ((1, 0) if present else (0,)):
+                    aname = t[1]
+                    s1 = _subst(s0, {("a", aname, bit): c}) if present else s0
+                    heap = {"self": s1}
+                    ret = pm.run(sm.set_feat, [sm.selfref, sm.K(k), f, ("bool", c)], heap)
+                    n += 1
+                    ok = ret != "diverge" and _same_seg(heap["self"], s1)
+                    r.inst("set_feat(%s, 1<<%d, %s) on place {%s} with that bit %s is the identity" % (k, bit, bool(c), sname, ("= %d" % c) if present else "absent"), fn_loc(sm.set_feat),
+                           "ok" if ok else "report")
+                    if not ok:
+                        r.report("BIT-4|feat|%s|bit%d=%s|%s" % (k, bit, c if present else "absent", sname), fn_loc(sm.set_feat), sm.set_feat.path,
+                                 "set_feat(%s, 1<<%d, %s) changes a segment in which that feature already has this value (place {%s}): `[αF] > [αF]` does not leave the word as it was"
+                                 % (k, bit, bool(c), sname))
+    r.analysed["evaluations"] = n
+    return r
